@@ -4,12 +4,12 @@
    are tied to it -- and to the slot-by-slot memory models Paging/Mapped.v, Paging/Recursive.v --
    by the correspondence check on whole call histories (engines "tree" and "map").
    For MappedPageTable/OffsetPageTable the refinement memory model -> tree is PROVED for
-   map_to, unmap, update_flags and translate_page (Paging/Refine*.v: a representation relation
+   map_to, unmap, update_flags, set_flags_p4/p3/p2_entry and translate_page (Paging/Refine*.v: a representation relation
    with a separation invariant over table and allocator frames), and with it the main statement
    at the level of raw table memory (C01_raw_memory_walk_is_history_dictated).
-   Partial: for set_flags_p*_entry and clean_up, and for RecursivePageTable (whose accesses go
+   Partial: for clean_up, and for RecursivePageTable (whose accesses go
    through recursive addresses), the refinement is checked by the correspondence, not proved. *)
-From X86 Require Import Paging.Mapped Paging.Tree Paging.TreeProofs Paging.Refine Paging.RefineOps Paging.RefineWalk Paging.RefineHistory Paging.Run.
+From X86 Require Import Paging.Mapped Paging.Tree Paging.TreeProofs Paging.Refine Paging.RefineOps Paging.RefineParent Paging.RefineWalk Paging.RefineHistory Paging.Run.
 Open Scope Z_scope.
 
 (* after ANY history from the empty level-4 table, every index path reaches exactly the leaf the
@@ -165,6 +165,17 @@ Theorem C01_translate_page_memory_model_refines_tree : forall s ch k page,
 Proof. exact translate_page_refines. Qed.
 Print Assumptions C01_translate_page_memory_model_refines_tree.
 
+Theorem C01_parent_flag_calls_memory_model_refines_tree : forall s ch k level page flags fr r0,
+  2 <= level <= 4 -> 0 <= k <= 2 -> rep 4 s ch (root s) -> tframe (root s) -> sep s (root s) ch ->
+  pflags_ok flags ->
+  let s' := fst (set_flags_parent s k level page flags) in
+  let r := apply_op false r0 {| t_root := ch; t_aor := aor_of s; t_freed := fr |} (OSetParent k level page flags) in
+  snd (set_flags_parent s k level page flags) = snd r /\ t_aor (fst r) = aor_of s /\ t_freed (fst r) = fr /\
+  rep 4 s' (t_root (fst r)) (root s') /\ sep s' (root s') (t_root (fst r)) /\ MemProofs.same_alloc s s' /\
+  (forall a, 0 <= a -> ~ in_frames (root s :: frames_of ch) a -> rd s' a = rd s a).
+Proof. exact set_flags_parent_refines. Qed.
+Print Assumptions C01_parent_flag_calls_memory_model_refines_tree.
+
 (* under the representation relation the independent hardware-style walk of the raw memory is
    the tree walk *)
 Theorem C01_hardware_walk_of_memory_is_the_tree_walk : forall s ch va,
@@ -173,7 +184,7 @@ Proof. exact hw_walk_rep. Qed.
 Print Assumptions C01_hardware_walk_of_memory_is_the_tree_walk.
 
 (* THE statement of C01 at the level of raw table memory, for MappedPageTable/OffsetPageTable
-   and histories of map / unmap / update_flags calls of the three sizes: from an empty level-4
+   and histories of map / unmap / update_flags / set_flags_p*_entry calls of the three sizes: from an empty level-4
    table, with an allocator whose frames are 4 KiB aligned, pairwise distinct and different from
    the root (the FrameAllocator contract, hypothesis `sep`), the hardware walk of the final
    memory returns for every virtual address exactly the leaf, size and physical address the
@@ -197,9 +208,9 @@ Print Assumptions C01_raw_memory_walk_is_history_dictated.
 (* the hypotheses are satisfiable: a concrete allocator and history *)
 Theorem C01_raw_memory_hypotheses_satisfiable :
   let allocs := [2097152; 3145728; 5242880; -1] in
-  let ops := [MMap 0 4096 8192 3 7; MMap 1 2097152 4194304 1 1; MUnmap 0 4096; MUpdate 1 2097152 3] in
+  let ops := [MMap 0 4096 8192 3 7; MMap 1 2097152 4194304 1 1; MSetParent 0 4 4096 3; MUnmap 0 4096; MUpdate 1 2097152 3] in
   tframe 1048576 /\ sep (init_pstate 1048576 allocs 0) 1048576 empty_children /\ Forall mop_ok ops /\
   exists s' outs, mem_run (init_pstate 1048576 allocs 0) ops = Ok (s', outs) /\
-    outs = [[0; 4096]; [0; 2097152]; [0; 8192; 4096]; [0; 2097152]].
+    outs = [[0; 4096]; [0; 2097152]; [0]; [0; 8192; 4096]; [0; 2097152]].
 Proof. exact hypotheses_satisfiable. Qed.
 Print Assumptions C01_raw_memory_hypotheses_satisfiable.
